@@ -53,7 +53,7 @@ def observe_mismatch(fx, np, props, op, tx, ty):
         return dict(row, raised=True, err=type(ex).__name__)
 
 
-def observe_shift(fx, np, props, direction, mode, tx, cxs, n, ovf='saturate', scalar=False, hist=None):
+def observe_shift(fx, np, props, direction, mode, tx, cxs, n, ovf='saturate', scalar=False, hist=None, iop=False):
     row = {'k': 'shift', 'p': list(props), 'dir': direction, 'mode': mode, 'n': n, 'x': dict(zip('swf', (bool(tx[0]), tx[1], tx[2]))),
            'o': ovf, 'route': direction + '/' + mode, 'carrier': 'scalar' if scalar else 'array'}
     try:
@@ -62,9 +62,19 @@ def observe_shift(fx, np, props, direction, mode, tx, cxs, n, ovf='saturate', sc
             row['route'] = row['route'] + '/hist-' + hist
         else:
             X = mk(fx, np, tx, cxs[0] if scalar else cxs, shifting=mode, overflow=ovf)
-        Z = (X << n) if direction == 'l' else (X >> n)
+        if iop:           # in-place spelling: Z = X; Z <<= n  (X itself stays what it was)
+            row['route'] = row['route'] + '/iop'
+            Z = X
+            if direction == 'l':
+                Z <<= n
+            else:
+                Z >>= n
+        else:
+            Z = (X << n) if direction == 'l' else (X >> n)
         cl = [cxs[0]] if scalar else list(cxs)
+        # what the result READS as (the value is what the property is about): only where every value is an exact double
+        rb = [common.wdy(v) for v in np.asarray(Z.get_val(), dtype=float).ravel().tolist()] if int(Z.n_word) <= 52 else []
         return dict(row, z=fmt_of(Z), cx=[wint(c) for c in cl], ca=[wint(c) for c in common.codes_of(X)],
-                    cz=[wint(c) for c in common.codes_of(Z)], v=[0] * len(cl), xa=fmt_of(X))
+                    cz=[wint(c) for c in common.codes_of(Z)], v=[0] * len(cl), xa=fmt_of(X), rb=rb)
     except Exception as ex:
         return dict(row, k='error', err=type(ex).__name__, msg=str(ex)[:200])
